@@ -1,6 +1,6 @@
 (* C11 - no task runs unless the arguments and every task definition are valid. Pinned statements only. *)
 From Coq Require Import List String Bool.
-From RashV Require Import Engine EngineProofs HelpDoc HelpDocProofs.
+From RashV Require Import Engine EngineProofs HelpDoc HelpDocProofs Valid.
 Import ListNotations.
 
 Theorem C11_rejected_arguments_run_nothing : forall q root fs fuel script env,
@@ -37,3 +37,15 @@ Theorem C11_help_text_ignores_the_tasks : forall first doc l rest rest',
   after_hash l = None ->
   parse_help (join_nl (first :: doc ++ l :: rest)) = parse_help (join_nl (first :: doc ++ l :: rest')).
 Proof. exact help_ignores_everything_after_the_first_hashless_line. Qed.
+
+(* which entries of a file are invalid (the `None`s of parse_file above): Valid.v mirrors validate_attrs and
+   get_module_name.  Accepted = a mapping with string keys made of ONE module name and known keywords *)
+Theorem C11_valid_task_is_one_module_plus_keywords : forall ks,
+  valid_task (RMap ks) = true <->
+  exists a b m, ks = a ++ KStr m :: b /\ is_module m = true /\
+                forallb (fun k => match k with KStr s => andb (is_attr s) (negb (is_module s)) | KOther => false end) (a ++ b) = true.
+Proof. exact valid_task_iff. Qed.
+Theorem C11_one_unknown_key_invalidates_the_task : forall a b k, key_ok k = false -> valid_task (RMap (a ++ k :: b)) = false.
+Proof. exact unknown_key_invalidates. Qed.
+Theorem C11_one_invalid_entry_invalidates_the_file : forall a b t, valid_task t = false -> valid_file (a ++ t :: b) = false.
+Proof. exact invalid_entry_invalidates_file. Qed.
